@@ -19,7 +19,8 @@ ASSUMPTIONS = ["solver round-off: variants compared at 1e-7 relative to the data
                "points in general position (no tied neighbour distances for KNeighbors; hull-interior queries for Linear/Cubic)"]
 TRUSTED = ["numpy ravel/atleast_1d/broadcast semantics", "pandas Series -> ndarray conversion"]
 
-LINEAR = {"trend", "spline", "vector", "knn-mean", "linear"}
+LINEAR = {"trend", "spline", "vector", "knn-mean", "linear", "chain-trend-knn", "vector-trend"}
+VEC = {"vector", "vector-trend"}
 
 
 def pts(rng, n):
@@ -59,6 +60,14 @@ def build(kind, params):
         return vd.Linear(rescale=params["rescale"])
     if kind == "cubic":
         return vd.Cubic(rescale=params["rescale"])
+    if kind == "knn-max":
+        return vd.KNeighbors(k=params["k"], reduction=np.max)
+    if kind == "chain-trend-knn":
+        return vd.Chain([("trend", vd.Trend(1)), ("knn", vd.KNeighbors(k=params["k"]))])
+    if kind == "chain-knnmax-trend":
+        return vd.Chain([("knn", vd.KNeighbors(k=params["k"], reduction=np.max)), ("trend", vd.Trend(1))])
+    if kind == "vector-trend":
+        return vd.Vector([vd.Trend(1), vd.Trend(params["degree"])])
     raise ValueError(kind)
 
 
@@ -95,10 +104,11 @@ def _degenerate(es, ns):
 
 
 def rand_case(rng, kind=None):
-    kind = kind or rng.choice(["trend", "trend", "spline", "spline", "vector", "knn-mean", "knn-median", "linear", "cubic"])
+    kind = kind or rng.choice(["trend", "trend", "spline", "spline", "vector", "knn-mean", "knn-median", "linear", "cubic",
+                               "knn-max", "chain-trend-knn", "chain-knnmax-trend", "vector-trend"])
     n = rng.choice([6, 8, 9, 10, 12])
     es, ns = pts(rng, n)
-    while (kind.startswith("knn") and _has_ties(es, ns)) or (kind in ("linear", "cubic") and _degenerate(es, ns)):
+    while ((kind.startswith("knn") or "knn" in kind) and _has_ties(es, ns)) or (kind in ("linear", "cubic") and _degenerate(es, ns)):
         es, ns = pts(rng, n)
     d1 = [float(rng.randint(-20, 20)) for _ in range(n)]
     d2 = [float(rng.randint(-20, 20)) for _ in range(n)]
@@ -106,7 +116,9 @@ def rand_case(rng, kind=None):
     params = {"trend": {"degree": rng.randint(0, 2)},
               "spline": {"damping": rng.choice([None, 1e-3, 1e-1])},
               "vector": {"poisson": rng.choice([-0.5, 0.0, 0.5]), "mindist": rng.choice([1.0, 4.0]), "damping": rng.choice([None, 1e-2])},
-              "knn-mean": {"k": rng.randint(1, 3)}, "knn-median": {"k": rng.randint(1, 3)},
+              "knn-mean": {"k": rng.randint(1, 3)}, "knn-median": {"k": rng.randint(1, 3)}, "knn-max": {"k": rng.randint(1, 3)},
+              "chain-trend-knn": {"k": rng.randint(1, 3)}, "chain-knnmax-trend": {"k": rng.randint(1, 3)},
+              "vector-trend": {"degree": rng.randint(0, 2)},
               "linear": {"rescale": rng.random() < 0.5}, "cubic": {"rescale": rng.random() < 0.5}}[kind]
     if w is not None and kind in ("spline", "vector") and params.get("damping") is None:
         w = None
@@ -118,7 +130,8 @@ def rand_case(rng, kind=None):
 def corpus():
     import random
     rng = random.Random(4)
-    return [rand_case(rng, k) for k in ["trend", "spline", "vector", "knn-mean", "knn-median", "linear", "cubic"]]
+    return [rand_case(rng, k) for k in ["trend", "spline", "vector", "knn-mean", "knn-median", "linear", "cubic",
+                                        "knn-max", "chain-trend-knn", "chain-knnmax-trend", "vector-trend"]]
 
 
 def generate(rng, tier):
@@ -136,7 +149,7 @@ def _variants(kind, es, ns, d1, d2, w, perm, seed):
     """name -> (coords, data, weights) with the same logical element sequence (or a permutation of the points)."""
     n = len(es)
     E, N = np.array(es), np.array(ns)
-    vec = kind == "vector"
+    vec = kind in VEC
     D = (np.array(d1), np.array(d2)) if vec else np.array(d1)
     W = None if w is None else ((np.array(w), np.array(w)[::-1].copy()) if vec else np.array(w))
 
@@ -186,7 +199,7 @@ def impl(case):
             pi = _fit_predict(kind, params, coords, data, weights, iq)
             res["int-query"] = [[x.ravel().tolist() for x in pf], [x.ravel().tolist() for x in pi]]
             if kind in LINEAR:
-                vec = kind == "vector"
+                vec = kind in VEC
                 E, N = np.array(es), np.array(ns)
                 D1 = (np.array(d1), np.array(d2)) if vec else np.array(d1)
                 D2 = (np.array(d2)[::-1].copy(), np.array(d1)[::-1].copy()) if vec else np.array(d2)
